@@ -124,7 +124,7 @@ func (w *world) apply(o op) {
 		src := w.objs[o.tgt]
 		st := seqx.Step{Op: strings.TrimPrefix(o.kind, "l.")}
 		if st.Op == "Level" {
-			st.Level = zerolog.DebugLevel
+			st.Level = zerolog.InfoLevel // (debug events of this branch are filtered from here on: see the level probe)
 		}
 		if st.Op == "Hook" {
 			st.Hooks = []int{w.n}
